@@ -66,17 +66,17 @@ def validate(rep, pid, comp, module, cfg, trace, part, is_hit, sig=None, constan
     return r
 
 
-def gen_replay_validate(rep, pid, comp, gen_module, gen_consts, vh_cmd, trace_module, tcfg, part, is_hit, sig=None, extra_vh=()):
+def gen_replay_validate(rep, pid, comp, gen_module, gen_consts, vh_cmd, trace_module, tcfg, part, is_hit, sig=None, extra_vh=(), trace_consts=None):
     wd = vlib.workdir(pid)
     beh = os.path.join(wd, "beh_%s.ndjson" % part.replace("/", "_"))
     trace = os.path.join(wd, "trace_%s.ndjson" % part.replace("/", "_"))
     g = vlib.tlc_gen(pid, gen_module, GEN_CFG, gen_consts, beh)
     rep.add_mc("%s/%s" % (gen_module, part), g)
     vlib.vh([vh_cmd, beh, trace] + list(extra_vh))
-    return validate(rep, pid, comp, trace_module, tcfg, trace, part, is_hit, sig)
+    return validate(rep, pid, comp, trace_module, tcfg, trace, part, is_hit, sig, constants=trace_consts)
 
 
-def generic_replay(pid, comp, vh_cmd, trace_module, tcfg, path, to_ops, extra_vh=()):
+def generic_replay(pid, comp, vh_cmd, trace_module, tcfg, path, to_ops, extra_vh=(), trace_consts=None):
     """Re-execute a stored violation: payload.trace is the recorded run; to_ops turns it back into inputs."""
     v = json.load(open(path))
     wd = vlib.workdir(pid)
@@ -84,7 +84,7 @@ def generic_replay(pid, comp, vh_cmd, trace_module, tcfg, path, to_ops, extra_vh
     beh, trace = os.path.join(wd, "replay_beh.ndjson"), os.path.join(wd, "replay_trace.ndjson")
     open(beh, "w").write(json.dumps(ops) + "\n")
     vlib.vh([vh_cmd, beh, trace] + list(extra_vh))
-    r = vlib.validate_traces(pid, trace_module, tcfg, trace, nchunks=1)
+    r = vlib.validate_traces(pid, trace_module, tcfg, trace, nchunks=1, constants=trace_consts)
     if r["rejected"]:
         print("  reproduced:", *signature(pid, comp, r["rejected"][0]))
         print("VIOLATION property=%s replay=%s" % (pid, path))
